@@ -50,6 +50,10 @@ Sensitivity (quick tier, seed 1, scratch copy of /repo/tornado/queues.py; all ca
       complete.  Missed by the first version at seeds 1,2,3 (cancel_oldest targeted get/put only and always let
       the loop run before task_done); now caught at seeds 1,2,3 by the "joins" part and the main part
       (cancel_join op, no-settle variants, several joiners)  -> crash.InvalidStateError@locks.py:set
+  M13 PriorityQueue._put appends without sifting when the item is not smaller than the heap list's LAST element
+      (round-10 seed C35-10): needs >=6 items in a particular order (0,3,1,2,4,5 -> 0,1,3,2,4,5); the first
+      version held <=4 items in most histories and caught it at seed 1 only.  Now caught deterministically
+      (every seed) by the "order" and "order_hist" parts                      -> C35.wrong_item
 """
 import itertools
 
@@ -70,7 +74,11 @@ RULE = (
     "both orders, expired waiter at the head / in the middle); plus exhaustive enumeration of all sequences of "
     "length <=L over {put, put_t1, get, get_t1, task_done, join, cancel_oldest, tick} for each class x maxsize "
     "{0,1} (L=4 quick, 6 thorough), and of all sequences of length <=L after one put over {put, task_done, join, "
-    "join_t1, cancel of the oldest pending join without running the loop, jump, loop step, tick}; non-trivial = a blocked getter/putter times out or is cancelled, or a "
+    "join_t1, cancel of the oldest pending join without running the loop, jump, loop step, tick}; plus the ordering family: every permutation of 1..7 (thorough 8) distinct "
+    "priorities put into each class and drained, gets interleaved at every position for all permutations of 5 and 6 "
+    "(every 7th of 7; every 3rd for fifo/lifo), every {0,1,2}-sequence of length 6 and 7 (duplicates) for the priority queue, and every "
+    "permutation of 6 through put()/get() futures with maxsize 0 and 3 (oracle: reference min / oldest / newest of "
+    "the items present); non-trivial = (histories) a blocked getter/putter times out or is cancelled, or a "
     "complementary operation occurs while one is blocked; distinct = SHA-1 of the case"
 )
 ASSUMPTIONS = [
@@ -706,11 +714,117 @@ def join_cases(maxlen):
             yield {"cls": "fifo", "maxsize": 0, "ops": [("put", 0, None)] + list(seq)}
 
 
-PARTS = {"main": run_case, "grid": run_case, "joins": run_case}
+# ------------------------------------------------------------------------------------- ordering discipline, systematically
+def run_order_case(ctx, case):
+    """Synchronous put_nowait/get_nowait on an unbounded queue: ``seq`` is a list of priorities (put) and "g"
+    (get).  Oracle: a get returns, among the items present, the oldest (fifo) / newest (lifo) / smallest (prio:
+    reference = min of the present items); qsize after every op; the final drain returns everything left in the
+    discipline's order and then QueueEmpty."""
+    cls = case["cls"]
+    q = CLASSES[cls]()
+    present = []
+    serial = 0
+    labels = {"order_" + cls, "order_items_%s" % case["items"]}
+
+    def expect():
+        if cls == "fifo":
+            return present.pop(0)
+        if cls == "lifo":
+            return present.pop()
+        it = min(present)
+        if it != present[0] and it != present[-1]:
+            labels.add("order_min_in_the_middle")
+        present.remove(it)
+        return it
+
+    def get(step):
+        want = expect()
+        got = q.get_nowait()
+        if got != want:
+            ctx.fail("C35.wrong_item", {"cls": cls, "seq": case["seq"], "step": step, "got": got, "want": want,
+                                        "present_before": sorted(present + [want]), "via": "order"})
+            if got in present:  # keep the model in step with what really left the queue
+                present.remove(got)
+                present.append(want)
+
+    nput = 0
+    for step, x in enumerate(case["seq"]):
+        if x == "g":
+            if present:
+                labels.add("order_get_interleaved")
+                get(step)
+            else:
+                try:
+                    q.get_nowait()
+                    ctx.fail("C35.get_nowait_returned_from_empty", {"seq": case["seq"], "step": step})
+                except queues.QueueEmpty:
+                    pass
+        else:
+            item = x if case["items"] == "int" else (x, serial)
+            serial += 1
+            nput += 1
+            q.put_nowait(item)
+            present.append(item)
+        if q.qsize() != len(present):
+            ctx.fail("C35.qsize", {"seq": case["seq"], "step": step, "real": q.qsize(), "model": len(present)})
+    step = len(case["seq"])
+    while present:
+        get(step)
+    try:
+        q.get_nowait()
+        ctx.fail("C35.get_nowait_returned_from_empty", {"seq": case["seq"], "step": step})
+    except queues.QueueEmpty:
+        pass
+    labels.add("order_%d_items" % nput)
+    ctx.note(case, labels, nput >= 2)
+
+
+def order_cases(thorough):
+    """All permutations of 6 and 7 distinct priorities (1..5 too) for each class; for every permutation of 6 (and
+    every 7th permutation of 7) gets interleaved at every position (1 or 2 gets after the first j puts); all
+    sequences over {0,1,2} of length 6 and 7 (duplicates; plain ints and (priority, serial) tuples) for the
+    priority queue."""
+    sizes = range(1, 9 if thorough else 8)
+    for cls in ("prio", "lifo", "fifo"):
+        for n in sizes:
+            for i, perm in enumerate(itertools.permutations(range(n))):
+                perm = list(perm)
+                yield {"cls": cls, "items": "int", "seq": perm}
+                if n < 5 or (cls != "prio" and (n > 6 or i % 3)) or (n == 7 and i % 7) or (n == 8 and i % 97):
+                    continue
+                for j in range(1, n):
+                    for g in (1, 2):
+                        yield {"cls": cls, "items": "int", "seq": perm[:j] + ["g"] * g + perm[j:]}
+                    if cls == "prio" and j + 1 < n:  # gets at two positions
+                        yield {"cls": cls, "items": "int", "seq": perm[:j] + ["g"] + perm[j:j + 1] + ["g"] + perm[j + 1:]}
+    for n in (6, 7):
+        for seq in itertools.product((0, 1, 2), repeat=n):
+            seq = list(seq)
+            yield {"cls": "prio", "items": "int", "seq": seq}
+            yield {"cls": "prio", "items": "tuple", "seq": seq}
+            yield {"cls": "prio", "items": "tuple", "seq": seq[:4] + ["g"] + seq[4:]}
+
+
+def order_history_cases():
+    """Every permutation of 6 priorities through put()/get() futures on the loop (the full history machinery):
+    unbounded, and maxsize 3 where the last three puts block and are admitted one by one by the gets."""
+    for cls, maxsize in (("prio", 0), ("prio", 3), ("lifo", 3), ("fifo", 3)):
+        for i, perm in enumerate(itertools.permutations(range(6))):
+            if cls != "prio" and i % 6:
+                continue
+            ops = [("put", p, None) for p in perm]
+            yield {"cls": cls, "maxsize": maxsize, "ops": ops + [("get", None)] * 6}
+            if cls == "prio":
+                yield {"cls": cls, "maxsize": maxsize, "ops": ops[:4] + [("get", None)] + ops[4:] + [("get_nowait",)] * 5}
+
+
+PARTS = {"main": run_case, "grid": run_case, "joins": run_case, "order": run_order_case, "order_hist": run_case}
 
 
 def main(ctx):
     ctx.run_replays(PARTS)
     ctx.explore(case_s, run_case, ctx.n(1500, 100000), name="main")
+    ctx.enumerate(order_cases(ctx.thorough), run_order_case, name="order")
+    ctx.enumerate(order_history_cases(), run_case, name="order_hist")
     ctx.enumerate(join_cases(6 if ctx.thorough else 4), run_case, name="joins")
     ctx.enumerate(grid_cases(6 if ctx.thorough else 4), run_case, name="grid")
